@@ -305,6 +305,19 @@ pub fn oracle_c12(cfg: &BerCfg, obs: &BerObs) -> (Vec<Violation>, OracleStats) {
                 // per-frame noise plausibility (residual of the 8PSK inversion)
                 let sigma = expected_sigma(cfg, cfg.ebn0s_db[*e]);
                 let fnz = frame_noise(cfg, sigma, llrs, &c);
+                // Gaussian noise is never exactly zero: a received BPSK sample that sits exactly
+                // on its constellation point (to 1e-12 sigma; the chance of that under the stated
+                // distribution is below 1e-12 per sample) was not given any noise (seeded change
+                // C12-r5-1: the first 32 samples of every new channel object are noiseless)
+                if !cfg.psk8 {
+                    let nz = fnz.noise.iter().filter(|x| x.abs() < 1e-12 * sigma).count();
+                    if nz > 0 {
+                        v.push(Violation::new(
+                            "noise-frame",
+                            format!("frame ({},{},{}): {} of {} received samples carry no noise at all (they sit exactly on their constellation points)", e, w, j, nz, fnz.noise.len()),
+                        ));
+                    }
+                }
                 if fnz.max_residual > 1e-6 {
                     v.push(Violation::new(
                         "signs",
